@@ -5,6 +5,7 @@ package main
 import (
 	"fmt"
 	"os"
+	"regexp"
 	"math/big"
 	"go/constant"
 	"go/types"
@@ -24,6 +25,7 @@ type CVal struct {
 	Suffix string     // component suffix of a cell that is a protected local of the current function
 	Pkg    *types.Package
 	Lit    *string // string literal (for content-expanded comparisons)
+	ElemTyp types.Type // element type of a raw element row (elems(x))
 }
 
 type Env struct {
@@ -43,6 +45,21 @@ type Env struct {
 	logSt     *State // state in which call-log components are read (nil: st)
 	goal      bool // the formula is being proved (true) or assumed (false)
 	pol       int  // polarity of the current subformula: +1, -1, 0 (unknown)
+	univ      []univBinder // enclosing assumed universal binders (for Skolem functions)
+	noSkolem  bool         // some enclosing quantifier is not an assumed universal
+}
+
+// univBinder is a universally quantified variable of an assumed formula.
+type univBinder struct {
+	name string
+	t    Term
+}
+
+// skolemFn is the Skolem function of an assumed existential nested in universals.
+type skolemFn struct {
+	fn    []string // one function symbol per existential binder
+	names []string // names of the enclosing universal binders (the arguments)
+	sorts []string
 }
 
 func (vc *FuncVC) newEnv(st, old *State) *Env {
@@ -527,6 +544,9 @@ func (vc *FuncVC) binderSort(t string) (string, types.Type) {
 		return SIface, nil
 	case "byte":
 		return SInt, types.Typ[types.Uint8]
+	case "strrow":
+		// the element row of a []string backing array (index -> string)
+		return arraySort(SInt, SStr), nil
 	}
 	if typ, ok := vc.tryResolveType(t); ok {
 		return vc.sortOf(typ), typ
@@ -736,6 +756,10 @@ func (vc *FuncVC) evalIndex(env *Env, x *EIndex) *CVal {
 	idx := vc.eval(env, x.I)
 	if base.T.Sort == SStr {
 		return &CVal{T: T(app("at", base.T, idx.T), SInt), Typ: types.Typ[types.Uint8]}
+	}
+	if base.Typ == nil && strings.HasPrefix(base.T.Sort, "(Array Int ") {
+		_, es := arrayParts(base.T.Sort)
+		return &CVal{T: Select(base.T, idx.T, es), Typ: base.ElemTyp}
 	}
 	if base.Typ == nil {
 		panic(fmt.Errorf("indexing an untyped value"))
@@ -1020,6 +1044,37 @@ func (vc *FuncVC) evalCall(env *Env, x *ECall) *CVal {
 		t := vc.resolveType(s.V, pkg)
 		f := vc.declFun("implements", []string{SInt, SInt}, SBool)
 		return &CVal{T: And(Not(Eq(v.T, T("nil_iface", SIface))), T(app(f, T(app("tagOf", v.T), SInt), vc.ifaceID(t)), SBool))}
+	case "elems":
+		// elems(x): the element row (index -> value) of the backing array of slice x in the current state
+		v := arg(0)
+		sl, ok := v.Typ.Underlying().(*types.Slice)
+		if !ok || isStruct(sl.Elem()) {
+			panic(fmt.Errorf("elems: slice of non-struct elements expected"))
+		}
+		es := vc.sortOf(sl.Elem())
+		return &CVal{T: Select(env.st.get(vc.elemComp(sl.Elem())), T(app("s_arr", v.T), SInt), arraySort(SInt, es)), ElemTyp: sl.Elem()}
+	case "offof":
+		return &CVal{T: T(app("s_off", arg(0).T), SInt)}
+	case "arrayof":
+		return &CVal{T: T(app("s_arr", arg(0).T), SInt)}
+	case "distinctarrays":
+		// the backing arrays of the given slices are pairwise different
+		var refs []Term
+		for i := range x.Args {
+			refs = append(refs, T(app("s_arr", arg(i).T), SInt))
+		}
+		if len(refs) < 2 {
+			return &CVal{T: tTrue}
+		}
+		return &CVal{T: T(app("distinct", refs...), SBool)}
+	case "unescaped":
+		// unescaped(x): the object x refers to was allocated by this function and has not been handed to other code
+		v := arg(0)
+		ref := v.T
+		if v.T.Sort == SSlice {
+			ref = T(app("s_arr", v.T), SInt)
+		}
+		return &CVal{T: Or(Eq(ref, IntLit(0)), Not(Select(env.st.get("escaped"), vc.baseOf(ref), SBool)))}
 	case "allocated":
 		v := arg(0)
 		ref := v.T
@@ -1187,7 +1242,51 @@ func (vc *FuncVC) evalQuant(env *Env, x *EQuant) *CVal {
 		vc.skolems[key] = append(vc.skolems[key], tuple)
 		return &CVal{T: vc.eval(n, x.Body).T}
 	}
+	if x.Forall && vc.quantDepth == 0 && goalLike && !env.noSkolem {
+		// a universal to be proved: prove the body for fresh constants
+		n := env.child()
+		for _, b := range x.Vars {
+			sort, typ := vc.binderSort(b.Type)
+			c := vc.fresh("gk!"+b.Name, sort)
+			n.vars[b.Name] = &CVal{T: c, Typ: typ}
+			if b.Type == "strrow" {
+				n.vars[b.Name].ElemTyp = types.Typ[types.String]
+			}
+		}
+		vc.goalSkolemised = true
+		return &CVal{T: vc.eval(n, x.Body).T}
+	}
+	var skolemForm *Term
+	if !x.Forall && vc.quantDepth > 0 && hypLike && !env.noSkolem && len(env.univ) > 0 {
+		// an assumed existential under assumed universals: also state it with Skolem functions,
+		// which are offered as witnesses when the same existential is to be proved
+		n := env.child()
+		sk := skolemFn{}
+		var args []Term
+		for _, u := range env.univ {
+			sk.names = append(sk.names, u.name)
+			sk.sorts = append(sk.sorts, u.t.Sort)
+			args = append(args, u.t)
+		}
+		for _, b := range x.Vars {
+			sort, typ := vc.binderSort(b.Type)
+			vc.seq++
+			f := vc.declFun(fmt.Sprintf("skf!%s!%d", b.Name, vc.seq), sk.sorts, sort)
+			sk.fn = append(sk.fn, f)
+			n.vars[b.Name] = &CVal{T: T(app(f, args...), sort), Typ: typ}
+		}
+		vc.skolemFns[key] = append(vc.skolemFns[key], sk)
+		vc.quantDepth++
+		t := vc.eval(n, x.Body).T
+		vc.quantDepth--
+		skolemForm = &t
+	}
 	n := env.child()
+	if x.Forall && hypLike && !env.noSkolem {
+		n.univ = append([]univBinder{}, env.univ...)
+	} else {
+		n.noSkolem = true
+	}
 	var binders []string
 	for _, b := range x.Vars {
 		vc.seq++
@@ -1195,6 +1294,12 @@ func (vc *FuncVC) evalQuant(env *Env, x *EQuant) *CVal {
 		sort, typ := vc.binderSort(b.Type)
 		binders = append(binders, fmt.Sprintf("(%s %s)", name, sort))
 		n.vars[b.Name] = &CVal{T: T(name, sort), Typ: typ}
+		if b.Type == "strrow" {
+			n.vars[b.Name].ElemTyp = types.Typ[types.String]
+		}
+		if x.Forall && hypLike && !env.noSkolem {
+			n.univ = append(n.univ, univBinder{b.Name, T(name, sort)})
+		}
 	}
 	vc.quantDepth++
 	body := vc.eval(n, x.Body)
@@ -1204,9 +1309,29 @@ func (vc *FuncVC) evalQuant(env *Env, x *EQuant) *CVal {
 		q = "forall"
 	}
 	res := T(fmt.Sprintf("(%s (%s) %s)", q, strings.Join(binders, " "), body.T.S), SBool)
+	if skolemForm != nil {
+		res = And(res, *skolemForm)
+	}
 	if !x.Forall && vc.quantDepth == 0 && goalLike {
 		alts := []Term{res}
 		cands := append([][]Term{}, vc.skolems[key]...)
+	nextSk:
+		for _, sk := range vc.skolemFns[key] {
+			var args []Term
+			for i, nm := range sk.names {
+				v, ok := env.vars[nm]
+				if !ok || v.T.Sort != sk.sorts[i] {
+					continue nextSk
+				}
+				args = append(args, v.T)
+			}
+			var tuple []Term
+			for i, b := range x.Vars {
+				sort, _ := vc.binderSort(b.Type)
+				tuple = append(tuple, T(app(sk.fn[i], args...), sort))
+			}
+			cands = append(cands, tuple)
+		}
 		for _, h := range x.Hints {
 			if len(h) != len(x.Vars) {
 				panic(fmt.Errorf("@try: %d expressions for %d binders", len(h), len(x.Vars)))
@@ -1245,6 +1370,8 @@ func (vc *FuncVC) evalQuant(env *Env, x *EQuant) *CVal {
 	return &CVal{T: res}
 }
 
+var boundVarRe = regexp.MustCompile(`\|q!([A-Za-z_0-9]+)!\d+\|`)
+
 // funApp applies a named abstraction (`fun`): an uninterpreted SMT function with
 // a definitional axiom, so that invariants stay small and have good triggers.
 // Two applications share the function symbol iff their expanded bodies (which
@@ -1257,8 +1384,10 @@ func (vc *FuncVC) funApp(env *Env, m *SpecMacro, args []*CVal) *CVal {
 	for i, p := range m.Params {
 		var sort string
 		var typ types.Type
+		var elemTyp types.Type
 		if m.Types[i] == "" {
 			sort, typ = args[i].T.Sort, args[i].Typ
+			elemTyp = args[i].ElemTyp
 		} else {
 			typ = vc.resolveType(m.Types[i], m.Pkg)
 			sort = vc.sortOf(typ)
@@ -1280,12 +1409,13 @@ func (vc *FuncVC) funApp(env *Env, m *SpecMacro, args []*CVal) *CVal {
 		binders = append(binders, fmt.Sprintf("(%s %s)", name, sort))
 		sorts = append(sorts, sort)
 		formals = append(formals, T(name, sort))
-		n.vars[p] = &CVal{T: T(name, sort), Typ: typ}
+		n.vars[p] = &CVal{T: T(name, sort), Typ: typ, ElemTyp: elemTyp}
 	}
 	vc.quantDepth++
 	body := vc.eval(n, m.Body)
 	vc.quantDepth--
-	key := m.Name + "|" + body.T.S
+	// alpha-normalise bound variables (their names carry a fresh counter)
+	key := m.Name + "|" + boundVarRe.ReplaceAllString(body.T.S, "|q!$1|")
 	f, ok := vc.funCache[key]
 	if !ok {
 		f = vc.declFun(fmt.Sprintf("fun!%s!%d", m.Name, len(vc.funCache)), sorts, body.T.Sort)
